@@ -31,6 +31,7 @@ func main() {
 	case "consts":
 		out := map[string]interface{}{
 			"GenesisTime":       int64(glow.GenesisTime),
+			"LocalZoneOffset":   func() int { _, off := time.Now().Zone(); return off }(),
 			"GenesisExpected":   time.Date(2023, time.November, 19, 0, 0, 0, 0, time.UTC).Unix(),
 			"Server":            server.VerifConsts(),
 			"Client":            client.VerifConsts(),
